@@ -228,6 +228,9 @@ def ini_candidates(ini):
         out.append((("stage2", "instimage"), "/abs/inst.img"))
     out.append((("checksums", "/abs/repomd.xml"), "sha256:aa"))
     out += [(("checksums", "odd-length"), "a" * n) for n in (0, 31, 33, 41, 65)]
+    # the length of a digest, but no digest: letters beyond f, junk behind 32 good characters, junk in front of them
+    out += [(("checksums", "no-digest"), v) for v in ("z" * 32, "0123456789abcdef" * 2 + "-no-hex-", "0123456789abcdef" * 2 + "-this-is-not-a-digest-at-all!!!!",
+                                                      "not-hex-" + "0123456789abcdef" * 2, "0123456789abcdef" * 3 + "0123456789abcdeg", "ab" * 19 + "g1")]
     if "media" in ini:
         out += [(("media", "discnum"), "x"), (("media", "totaldiscs"), "1.5"), (("media", "discnum"), DELETE), (("media", "totaldiscs"), DELETE)]
     out.append((("tree", "variants"), ini["tree"]["variants"] + ",Ghost"))
